@@ -291,3 +291,19 @@ Proof.
   - apply (nt_run_normalised (list ev) _ (fun s => s ++ [EvN]) (fun t => ends_normalised t = true)). intros s. apply ends_normalised_snoc.
   - apply (p2_run_normalised (list ev) _ (fun s => s ++ [EvN]) (fun t => ends_normalised t = true)). intros s. apply ends_normalised_snoc.
 Qed.
+
+(* after 03a63dd: validate_tt_rank(allow_overparametrization=False) predicts exactly the ranks TT-SVD achieves *)
+Lemma validate_tt_rank_clip shape spec constant rd c :
+  validate_tt_rank shape spec constant rd false c = rbind (validate_tt_rank shape spec constant rd true c) (fun r => Ok (tt_clip shape r)).
+Proof. unfold validate_tt_rank. match goal with |- rbind ?X _ = _ => destruct X end; reflexivity. Qed.
+Lemma tensor_train_ranks_predicted shape spec c cores r :
+  tensor_train shape spec c = Ok cores -> validate_tt_rank shape spec false RRound false c = Ok r -> core_ranks cores = r.
+Proof.
+  intros H Hv. rewrite validate_tt_rank_clip in Hv. unfold tensor_train in H.
+  destruct (validate_tt_rank shape spec false RRound true c) as [rank|] eqn:E; [|discriminate].
+  simpl in H, Hv. injection Hv as <-.
+  destruct (length shape <=? 1) eqn:El; [discriminate|]. apply Nat.leb_gt in El. injection H as <-.
+  assert (Hne : shape <> []) by (destruct shape; [simpl in El; lia | discriminate]).
+  destruct (validate_tt_rank_boundary _ _ _ _ _ _ _ Hne E) as (_ & Hhd & _).
+  rewrite core_ranks_tt by exact Hne. unfold tt_clip. now rewrite Hhd.
+Qed.
